@@ -333,6 +333,45 @@ pub fn run_split(args: &[String]) -> i32 {
                 Ok(Err(e)) => violations.push(json!({"sig": format!("C16|split|error|{}", name), "replay": {"kind": "split", "tags": tags, "cfg": name, "err": e.to_string()}})),
                 Err(p) => violations.push(json!({"sig": format!("C16|split|panic|{}", name), "replay": {"kind": "split", "tags": tags, "cfg": name, "panic": p}})),
             }
+            // parse_repetitive_sequence with the same marker: the occurrences from the first marker on are dealt out
+            // to the items, each to exactly one, in input order, every item opening with the marker
+            {
+                let marker = cfg.sequence_b_marker.clone();
+                let rr = guarded(|| swift_mt_message::parser::sequence_parser::parse_repetitive_sequence::<swift_mt_message::messages::MT101>(&fields, &marker));
+                match rr {
+                    Ok(Ok(items)) => {
+                        let first = tags.iter().position(|t| *t == marker);
+                        let expected = first.map(|i| tags.len() - i).unwrap_or(0);
+                        let markers = tags.iter().filter(|t| **t == marker).count();
+                        let mut count: BTreeMap<(String, usize), usize> = BTreeMap::new();
+                        let (mut total, mut invented, mut disorder, mut headless) = (0usize, 0usize, 0usize, 0usize);
+                        let mut last_max = 0usize;
+                        for it in &items {
+                            let mut ps: Vec<(usize, String)> = Vec::new();
+                            for (tag, vals) in it.iter() {
+                                for (val, pos) in vals {
+                                    total += 1;
+                                    *count.entry((tag.clone(), *pos)).or_insert(0) += 1;
+                                    if !fields.get(tag).map(|vs| vs.iter().any(|(v0, p0)| v0 == val && p0 == pos)).unwrap_or(false) { invented += 1; }
+                                    ps.push((*pos, tag.clone()));
+                                }
+                            }
+                            ps.sort();
+                            if let Some((p0, t0)) = ps.first() {
+                                if *t0 != marker { headless += 1; }
+                                if *p0 <= last_max { disorder += 1; }
+                            }
+                            if ps.iter().skip(1).any(|(_, t)| *t == marker) { headless += 1; }
+                            last_max = ps.last().map(|x| x.0).unwrap_or(last_max);
+                        }
+                        let dup = count.values().filter(|c| **c > 1).count();
+                        let _ = writeln!(w, "{}", json!({"e": "rsplit", "cfg": name, "expected": expected, "total": total, "items": items.len(), "markers": markers,
+                            "dup": dup, "invented": invented, "disorder": disorder, "headless": headless}));
+                    }
+                    Ok(Err(e)) => violations.push(json!({"sig": format!("C16|rsplit|error|{}", name), "replay": {"kind": "split", "tags": tags, "cfg": name, "err": e.to_string()}})),
+                    Err(p) => violations.push(json!({"sig": format!("C16|rsplit|panic|{}", name), "replay": {"kind": "split", "tags": tags, "cfg": name, "panic": p}})),
+                }
+            }
             let _ = writeln!(w, "{}", json!({"e": "end"}));
             if samples.len() < 3 {
                 samples.push(json!({"tags": tags, "cfg": name}));
